@@ -1,6 +1,7 @@
 package main
 
 import (
+	"crypto/cipher"
 	"fmt"
 	"hash"
 	"runtime"
@@ -273,12 +274,37 @@ func (s *spyHash) Reset() {
 func (s *spyHash) Size() int      { return s.inner.Size() }
 func (s *spyHash) BlockSize() int { return s.inner.BlockSize() }
 
+// spyBlock wraps the exported Block field of the stock AES-CBC object: the object keeps its concrete
+// type (a library that treats its own cipher type specially still goes through the spy).
+type spyBlock struct {
+	name  string
+	inner cipher.Block
+	log   *atomic.Pointer[spyLog]
+}
+
+func (b *spyBlock) BlockSize() int { return b.inner.BlockSize() }
+func (b *spyBlock) Encrypt(dst, src []byte) {
+	b.inner.Encrypt(dst, src)
+}
+func (b *spyBlock) Decrypt(dst, src []byte) {
+	b.log.Load().add(b.name, "Decrypt", len(src))
+	b.inner.Decrypt(dst, src)
+}
+
+func spyCipher(name string, c ikeCrypto.IKECrypto, log *atomic.Pointer[spyLog], viaBlock bool) ikeCrypto.IKECrypto {
+	if stock, ok := c.(*encr.EncrAesCbcCrypto); ok && viaBlock && stock.Block != nil {
+		return &encr.EncrAesCbcCrypto{Block: &spyBlock{name, stock.Block, log}, Iv: stock.Iv, Padding: stock.Padding}
+	}
+	return &spyCrypto{name, c, log}
+}
+
 // spied wraps every security object of o with spies that log into *log.
 // The wrapping is itself long-lived, so histories on the inner objects are kept.
-func spied(o *security.IKESAKey, log *atomic.Pointer[spyLog]) *security.IKESAKey {
+func spied(o *security.IKESAKey, log *atomic.Pointer[spyLog], viaBlock bool) *security.IKESAKey {
 	c := *o
-	c.Encr_i = &spyCrypto{"Encr_i", o.Encr_i, log}
-	c.Encr_r = &spyCrypto{"Encr_r", o.Encr_r, log}
+	// viaBlock: a Block-level spy inside the stock cipher type instead of an interface-level wrapper
+	c.Encr_i = spyCipher("Encr_i", o.Encr_i, log, viaBlock)
+	c.Encr_r = spyCipher("Encr_r", o.Encr_r, log, viaBlock)
 	c.Integ_i = &spyHash{"Integ_i", o.Integ_i, log}
 	c.Integ_r = &spyHash{"Integ_r", o.Integ_r, log}
 	c.Prf_d = &spyHash{"Prf_d", o.Prf_d, log}
@@ -422,10 +448,11 @@ func protect(msg *message.IKEMessage, key *security.IKESAKey, role string, rs *R
 
 // RxOpts describes the receive path of one delivery.
 type RxOpts struct {
-	PreHdr   bool   `json:"prehdr,omitempty"`   // receiver pre-parses the header from the same bytes
-	Hdr28    bool   `json:"hdr28,omitempty"`    // ... from the first 28 octets only (a receiver that peeks at the header before reading the rest)
-	Spare    int    `json:"spare,omitempty"`    // spare capacity behind the datagram (poisoned)
-	Scribble string `json:"scribble,omitempty"` // "", "complement", "random", "zero"
+	PreHdr   bool   `json:"prehdr,omitempty"` // receiver pre-parses the header from the same bytes
+	Hdr28    bool   `json:"hdr28,omitempty"`
+	HdrOther bool   `json:"hdr_other,omitempty"` // header parsed from ANOTHER buffer holding the datagram, which is reused before DecodeDecrypt runs on a private copy    // ... from the first 28 octets only (a receiver that peeks at the header before reading the rest)
+	Spare    int    `json:"spare,omitempty"`     // spare capacity behind the datagram (poisoned)
+	Scribble string `json:"scribble,omitempty"`  // "", "complement", "random", "zero"
 	Hold     int    `json:"hold,omitempty"`
 	// Redeliver: the same receive buffer (not a copy) is presented a second time,
 	// to a decoder with its own key object, as a retrying or second receiver would.
@@ -451,6 +478,7 @@ func rxBuffer(d []byte, spare int) []byte {
 // DecodeDecrypt. A datagram whose header does not parse is delivered with a nil
 // header.
 func unprotect(buf []byte, key *security.IKESAKey, role string, prehdr bool, hdr28 ...bool) (*message.IKEMessage, *callResult) {
+	hdrOther := len(hdr28) > 1 && hdr28[1]
 	res := &callResult{}
 	res.RandSt = simRand.begin(RandScript{Seed: 2})
 	var out *message.IKEMessage
@@ -464,9 +492,17 @@ func unprotect(buf []byte, key *security.IKESAKey, role string, prehdr bool, hdr
 			if len(hdr28) > 0 && hdr28[0] && len(buf) >= 28 {
 				src = rxBuffer(buf[:28], 0)
 			}
+			if hdrOther {
+				src = rxBuffer(src, 0) // the socket buffer the header was parsed from ...
+			}
 			h, err = message.ParseHeader(src)
 			if err != nil {
 				h = nil
+			}
+			if hdrOther {
+				for i := range src { // ... has been reused for the next datagram by the time the copy is decoded
+					src[i] ^= 0xff
+				}
 			}
 		}
 		out, res.Err = ike.DecodeDecrypt(buf, h, key, roleOf(role))
